@@ -96,7 +96,9 @@ def strategy(cell, tier):
     d = cell["d"]
     mp_ = cell["backend"] == "object-mp"
     strata = opcheck.STRATA_BY_DIM[d] if mp_ else ("moderate", "octant", "moderate")
-    parts = [st.fixed_dictionaries({"a": gen.vec((s,)), "kl": st.floats(0.2, 2.8), "kt": st.floats(0.1, 30.0),
+    # keyword values: ordinary ones, exactly zero (a given zero is not "not given"), and negative ones
+    parts = [st.fixed_dictionaries({"a": gen.vec((s,)), "kl": st.one_of(st.floats(0.2, 2.8), st.floats(0.2, 2.8), st.just(0.0)),
+                                    "kt": st.one_of(st.floats(0.1, 30.0), st.floats(0.1, 30.0), st.just(0.0), st.floats(-5.0, -0.5)),
                                     "lspell": st.sampled_from(("z", "pz", "theta", "eta", None)),
                                     "tspell": st.sampled_from(("t", "e", "E", "energy", "tau", "m", "M", "mass", None)),
                                     "other_dim": st.sampled_from((2, 3, 4)), "other_sys": st.integers(0, 11),
@@ -164,6 +166,9 @@ def _read(be, r):
 
 
 def check_case(cell, bundle, ctx):
+    # theta = 0 is the z axis itself (z = rho / tan 0): a zero keyword value is used for every other coordinate only
+    theta_kw = cell.get("target", "").split("_")[1:2] == ["theta"] if cell.get("group") == "to" else False
+    bundle = [dict(sub, kl=(0.5 if sub["kl"] == 0 and (theta_kw or sub.get("lspell") == "theta") else sub["kl"])) for sub in bundle]
     d = cell["d"]
     sa = opcheck.parse_system(cell["sa"])
     be = cell["backend"]
